@@ -5,7 +5,7 @@ SLSQP (scipy.optimize.minimize) is compiled code: an oracle, a function paramete
      well-formed / malformed x (bounded-exhaustive); the implementation's outcome, the start point, objective and flattened
      Jacobian it handed to the optimiser are compared inside Coq with `solve_model` on the tree model of Model/Tree.v.
 (ii) real solves on feasible convex leaves and trees (incl. prox and custom s0) and on infeasible ones: every returned flow is
-     checked with the certificate proved sound in Props/C05.v (C05_fw_gap_certificate): feasibility residual <= 1e-6 and the
+     checked with the certificate proved sound in Props/C05.v (C05_fw_gap_certificate): feasibility residual <= 1e-6 x max(1, largest bound magnitude) and the
      Frank-Wolfe gap computed with scipy.optimize.linprog (HiGHS, independent of SLSQP) within tolerance; infeasible models must
      raise OptimizationException.  What no model can exhibit: SLSQP's convergence and failure reporting."""
 import numpy as np
@@ -25,6 +25,14 @@ CASE_TYPE = 'kase'
 CHECKER = 'chk'
 SHARD = 80
 FEAS_TOL = 1e-6
+
+
+def feas_tol(dev):
+  """feasibility is judged at the scale of the problem: SLSQP's own accuracy is relative to the magnitudes involved (a flow of 8192
+  that misses a bound by 4e-6 is feasible to 5e-10 of its size)"""
+  b = np.abs(np.asarray(dev.bounds, dtype=float))
+  b = b[np.isfinite(b)]
+  return FEAS_TOL * max(1.0, float(b.max()) if b.size else 1.0)
 GAP_REL = 5e-3          # calibrated on the unchanged tree (see RULE); SLSQP stops on |df| < ftol = 1e-6
 COQ_PRELUDE = '''From Coq Require Import ZArith QArith Qabs List Bool String.
 From DK Require Import Num NumQ Vec.
@@ -36,7 +44,7 @@ Inductive kase :=
 | KFault (d : dev Q) (p : price Q) (s0 : option (list Q)) (prox : option Q) (stub : optresult Q) (probe : list Q)
          (called : bool) (ox0 : list Q) (ofun : Q) (ojac : list Q) (nb nc : nat) (out : outcome)
          (uopts : sopts Q) (oopts : sopts Q) (okeys : nat)
-| KSolve (rows n : nat) (bnd : list (Q * Q)) (x : list (list Q)) (resid gap gtol : Q)
+| KSolve (rows n : nat) (bnd : list (Q * Q)) (x : list (list Q)) (resid gap gtol ftol : Q)
 | KMustRaise (raised : bool).
 Definition is_none {T} (o : option T) : bool := match o with None => true | Some _ => false end.
 Definition oeq {T} (e : T -> T -> bool) (a b : option T) : bool :=
@@ -63,10 +71,10 @@ Definition chk (c : kase) : bool :=
         | _, _ => false
         end
       else false
-  | KSolve rows n bnd x resid gap gtol =>
+  | KSolve rows n bnd x resid gap gtol ftol =>
       Nat.eqb (List.length x) rows && forallb (fun r => Nat.eqb (List.length r) n) x &&
-      forallb (fun '(lh, v) => Qle_bool (fst lh - (1 # 1000000)) v && Qle_bool v (snd lh + (1 # 1000000))) (combine bnd (List.concat x)) &&
-      Qle_bool resid (1 # 1000000) && Qle_bool gap gtol
+      forallb (fun '(lh, v) => Qle_bool (fst lh - ftol) v && Qle_bool v (snd lh + ftol)) (combine bnd (List.concat x)) &&
+      Qle_bool resid ftol && Qle_bool gap gtol
   | KMustRaise raised => raised
   end.
 '''
@@ -77,7 +85,7 @@ RULE = ('cases: (fault) a device tree (all leaf classes, sets, sub-balanced sets
         'OptimizationException / ValueError), whether the optimiser was consulted, and the start point, objective value and '
         'flattened Jacobian it was handed (evaluated at a probe flow) against solve_model on the tree model. (solve) real solves '
         'of feasible convex trees (Device, PVDevice, CDevice, CDevice2, IDevice, IDevice2, GDevice leaves; sets with aggregate '
-        'bounds, sub-balanced sets, adaptors) incl. prox and custom starts: shape, bounds, constraint residual <= 1e-6 and the '
+        'bounds, sub-balanced sets, adaptors) incl. prox and custom starts: shape, bounds, constraint residual <= 1e-6 x max(1, largest bound magnitude) and the '
         'LP-computed Frank-Wolfe gap <= 5e-3*(1+|cost|) (measured on the unchanged tree over ~600 judged solves: max 4.8e-4). (infeasible) trees made '
         'infeasible by an unreachable aggregate bound must raise. (closed) base devices against the closed-form optimum. '
         'Non-trivial: the optimiser is consulted or an exception is the expected outcome. Problems whose exported constraint '
@@ -388,6 +396,7 @@ def observe(c):
     o['shape'] = tuple(int(v) for v in dev.shape)
     o['bounds'] = [(fr(float(a)), fr(float(b))) for a, b in np.array(dev.bounds, dtype=float)]
     o.update(judge(dev, c, r))
+    o['ftol'] = feas_tol(dev)
     o['status'] = None if r[2] is None else int(getattr(r[2], 'status', -2))
     if c['kind'] == 'closed':
       L = c['t']['leaf']
@@ -426,8 +435,8 @@ def coq_case(c, o):
   gap, gtol = (o['gap'], o['gtol']) if o['gap'] is not None else (0.0, 1.0)
   if c['kind'] == 'closed':
     gap, gtol = float(o['closed_excess']), GAP_REL * (1 + abs(float(sum(F(v) * pi for v, pi in zip(o['x'][0], c['p'][1])))))
-  return '(KSolve %s %s %s %s %s %s %s)' % (cq(N(o['shape'][0])), cq(N(o['shape'][1])), cq(o['bounds']), cq(o['x']),
-                                            cq(fr(float(o['resid']))), cq(fr(float(gap))), cq(fr(float(gtol))))
+  return '(KSolve %s %s %s %s %s %s %s %s)' % (cq(N(o['shape'][0])), cq(N(o['shape'][1])), cq(o['bounds']), cq(o['x']),
+                                               cq(fr(float(o['resid']))), cq(fr(float(gap))), cq(fr(float(gtol))), cq(fr(float(o['ftol']))))
 
 
 def nontrivial(c, o):
@@ -537,7 +546,7 @@ def oracle_fault(c):
       bad = doc_infeasible(c['t'])
       if bad is None:
         dev = tg.build_tree(c['t'])
-        bad = cc.nonlinear_residual(np.array(dev.lbounds, dtype=float), dev) > FEAS_TOL
+        bad = cc.nonlinear_residual(np.array(dev.lbounds, dtype=float), dev) > feas_tol(dev)
       if bad:
         return None if out == 'opt' else 'the only flow within bounds violates a constraint and solve did not raise OptimizationException'
       if not isinstance(out, tuple):
@@ -573,7 +582,7 @@ def oracle_solve(c, skip_dependent=True):
   if lin and not feas:
     return 'the model is infeasible (LP) but solve returned a flow (constraint violation %.3g)' % cc.nonlinear_residual(x.reshape(-1), dev)
   j = judge(dev, c, r, skip_dependent)
-  if j['resid'] > FEAS_TOL:
+  if j['resid'] > feas_tol(dev):
     return 'returned flow violates bounds/constraints by %.3g' % j['resid']
   if j['gap'] is not None and j['gap'] > j['gtol']:
     return 'returned flow is not optimal: Frank-Wolfe gap %.6g (tolerance %.3g): a feasible flow is cheaper by up to that much to first order' % (j['gap'], j['gtol'])
